@@ -221,7 +221,17 @@ def checkForExistenceLoop (env : Env) (d : DirStream) (name : String) (isDir : O
     | .ok e => pure (.entry e)
     | .error .notFound =>
       match Names.generate gen with
-      | .ok sn => pure (.short sn)
+      | .ok sn => do
+        -- the candidate must not be an existing long name in disguise: look its display form up
+        -- (`str::from_utf8` of the display bytes cannot fail for a generated alias: all bytes are ASCII)
+        let cand := String.ofList ((ShortName.new sn).asBytes.map Char.ofNat)
+        if (ShortName.new sn).asBytes.all (· < 128) then do
+          let (r2, _) ← findEntryG env d cand none none
+          match r2 with
+          | .error .notFound => pure (.short sn)
+          | .error e => .fail e
+          | .ok _ => checkForExistenceLoop env d name isDir fuel (Names.addExisting gen sn)
+        else pure (.short sn)
       | .error _ => checkForExistenceLoop env d name isDir fuel (Names.nextIteration gen)
     | .error e => .fail e
 
